@@ -12,6 +12,14 @@ _hsf.update(name="hs_dispatch_faults", malloc_may_fail=True)
 _hsf["assumptions"] = _hsf["assumptions"] + ["hs_dispatch_faults: every allocation of the dispatcher may fail (symbolic fault schedule on the tape)"]
 HARNESSES.append(_hsf)
 HARNESSES.append(
+    dict(name="ecc_test_point", src="ecc_test_point.c", checks=COMMON["MEMCHECKS"], malloc_may_fail=True,
+         functions=["eccTestPoint"], sources=["crypto/pubkey/ecc_math.c"],
+         assumptions=["ecc_test_point: every bignum operation is a stub that fails or succeeds arbitrarily (ghost counters); the scratch allocation may fail; the two normalisation loops run at most twice"],
+         undefined_ok=["pstm_copy", "pstm_init_size", "pstm_montgomery_reduce", "pstm_div_2", "pstm_mul_2", "pstm_isodd", "pstm_iszero", "pstm_set", "pstm_count_bits", "pstm_exptmod", "pstm_mulmod", "pstm_invmod",
+                       "pstm_montgomery_setup", "pstm_montgomery_calc_normalization", "pstm_init_for_read_unsigned_bin", "pstm_read_unsigned_bin", "pstm_read_radix", "pstm_init_copy", "pstm_zero", "pstm_abs", "pstm_exch", "pstm_clear_multi", "pstm_add_d", "pstm_sub_d", "pstm_mul_d", "pstm_div", "pstm_lshd", "pstm_rshd", "pstm_clamp", "pstm_grow", "pstm_unsigned_bin_size", "pstm_to_unsigned_bin", "pstm_mul_comba_gen", "pstm_sqr_comba_gen", "pstm_cmp_mag"],
+         unwind=6,
+         cases=[dict(name="any", defs={})]))
+HARNESSES.append(
     dict(name="gn_parse_faults", dir="C09", src="gn_parse.c", checks=COMMON["MEMCHECKS"], malloc_may_fail=True, units=["crypto/keyformat/asn1.c"],
          functions=["parseGeneralNames"], sources=["crypto/keyformat/x509.c"],
          assumptions=["gn_parse_faults: every allocation may fail (symbolic fault schedule on the tape); 9-byte DER buffer"],
@@ -22,8 +30,8 @@ HARNESSES.append(
                                 "parseGeneralNames:/for \\(c = p; c < save/": 10,
                                 "strncpy.0": 20, "vf_harness:/for \\(/": 11})]))
 PROPERTY = dict(level='model_checking',
-    claim='With every allocation allowed to fail (fault bits drawn from the tape, all schedules decided at once): no NULL dereference, failures are reported as negative return codes, nothing leaks after delete; in the handshake dispatcher (fragment buffers, cookie, NewSessionTicket) a failed allocation never leaves the session ticket pointer dangling or its length stale.',
+    claim='With every allocation allowed to fail (fault bits drawn from the tape, all schedules decided at once): no NULL dereference, failures are reported as negative return codes, nothing leaks after delete; in the handshake dispatcher (fragment buffers, cookie, NewSessionTicket) a failed allocation never leaves the session ticket pointer dangling or its length stale; eccTestPoint accepts a point only if every allocation and arithmetic step succeeded and the curve equation compared equal.',
     bounds='matrixSslNewClientSession (callees stubbed), parseGeneralNames on 9-byte DER',
     outside='all other allocation sites (key loading, the per-message parsers, bignum scratch buffers, ticket keys)',
-    explanation='With every allocation allowed to fail (fault bits drawn from the tape, all schedules decided at once): no NULL dereference, failures are reported as negative return codes, nothing leaks after delete; in the handshake dispatcher (fragment buffers, cookie, NewSessionTicket) a failed allocation never leaves the session ticket pointer dangling or its length stale.',
+    explanation='With every allocation allowed to fail (fault bits drawn from the tape, all schedules decided at once): no NULL dereference, failures are reported as negative return codes, nothing leaks after delete; in the handshake dispatcher (fragment buffers, cookie, NewSessionTicket) a failed allocation never leaves the session ticket pointer dangling or its length stale; eccTestPoint accepts a point only if every allocation and arithmetic step succeeded and the curve equation compared equal.',
     assumptions=[])
